@@ -56,35 +56,49 @@ def regenerate(R):
 
 
 def dirty_rows(info):
-    trusted = trusted_ext()
+    trusted, tsync = trusted_list("trustedExt"), trusted_list("trustedSync")
     res = []
     for e in info.get("entries", []):
+        if e["kind"] == "reload":
+            continue
         bad = [dict(w, list=k) for k in ("writes", "globals", "unknown") for w in (e.get(k) or [])]
         bad += [dict(w, list="ext") for w in (e.get("ext") or []) if w["what"] not in trusted]
+        bad += [dict(w, list="sync") for w in (e.get("sync") or []) if w["what"] not in tsync]
         if bad:
             res.append({"kind": e["kind"], "type": e["type"], "method": e["method"], "effects": bad})
     return res
 
 
-def trusted_ext():
+def trusted_list(name):
     src = open(os.path.join(vlib.LEAN, "HeimdallModel", "Model", "Footprint.lean")).read()
-    body = src.split("def trustedExt : List String := [", 1)[1].split("]", 1)[0]
+    body = src.split("def %s : List String := [" % name, 1)[1].split("]", 1)[0]
     return set(json.loads("[" + body + "]"))
 
 
 # ---------------------------------------------------------------------------------------------------------------
 # running cases
 
+def objects(case):
+    """the objects the factory hands out, in order: (op index, index within `creates` or None, spec dict)"""
+    res = []
+    for i, op in enumerate(case["ops"]):
+        if op["op"] == "create":
+            res.append((i, None, op))
+        elif op["op"] == "par":
+            res += [(i, j, cr) for j, cr in enumerate(op.get("creates") or [])]
+    return res
+
+
 def with_eff(case, model):
-    """the effective configurations computed by the model travel to the implementation side, which loads each of
-    them as a catalogue entry of its own and compares the result with the variant"""
+    """the effective configurations computed by the model (and, where it differs, the one the specification demands)
+    travel to the implementation side, which loads each of them as a catalogue entry of its own and compares the
+    result with the object the factory handed out"""
     c = copy.deepcopy(case)
     effs = model.get("eff", []) if isinstance(model, dict) else []
-    k = 0
-    for op in c["ops"]:
-        if op["op"] == "create":
-            op["eff"] = effs[k] if k < len(effs) else None
-            k += 1
+    specs = model.get("eff_spec", []) if isinstance(model, dict) else []
+    for k, (_, _, spec) in enumerate(objects(c)):
+        spec["eff"] = effs[k] if k < len(effs) else None
+        spec["eff_spec"] = specs[k] if k < len(specs) else None
     return c
 
 
@@ -92,6 +106,38 @@ def run_both(exe, cases, env=None, timeout=1500):
     model = vlib.run_cases(vlib.driver_cmd(), cases)
     impl = vlib.run_cases([exe], [with_eff(c, m) for c, m in zip(cases, model)], env=env, timeout=timeout)
     return model, impl
+
+
+def behaves_like_reference(case, gr, handle):
+    """(number of executions of the handle that agreed with the reference object, number that did not)"""
+    same = differ = 0
+    for i, op in enumerate(case["ops"]):
+        if op["op"] == "exec" and op["h"] == handle and i < len(gr) and gr[i].get("ran"):
+            if gr[i].get("ref"):
+                same += 1
+            else:
+                differ += 1
+    return same, differ
+
+
+def explain(case, i, a, b, ob, gr, handle, what_op):
+    """why the answers for an object handed out / an operation differ: (text, property level)"""
+    if b.get("changed"):
+        return (f"{what_op} changed the mechanism object(s) handed out as number(s) {b['changed']}: a loaded mechanism "
+                "was modified", True)
+    if b.get("st") == "ok" and a.get("st") == "ok" and b.get("ref") is False and a.get("ref") is True:
+        same, differ = behaves_like_reference(case, gr, handle) if handle is not None else (0, 0)
+        if same and not differ and "ref_error" not in ob:
+            return (f"{what_op}: the object differs structurally from the same configuration loaded on its own, but "
+                    f"answered {same} request(s) like it (representation only)", False)
+        return (f"{what_op}: the object a rule gets is not the catalogue configuration overlaid with the rule's own "
+                "settings (differs from the same configuration loaded on its own)", True)
+    if b.get("ran") and b.get("ref") is False and a.get("ref") is True:
+        return (f"{what_op}: the object answered differently from the same configuration loaded on its own", True)
+    if b.get("par_ok") is False:
+        return (f"{what_op}: concurrent executions answered differently from the same executions done alone", True)
+    return (f"{what_op}: implementation {json.dumps(b, sort_keys=True)[:300]} ≠ model "
+            f"{json.dumps(a, sort_keys=True)[:300]}", False)
 
 
 def judge(case, m, g):
@@ -104,52 +150,81 @@ def judge(case, m, g):
     if not isinstance(mr, list) or not isinstance(gr, list) or len(mr) != len(gr):
         return ("model / harness error: " + json.dumps({"model": m, "impl": g})[:600], False, None, {})
     obs = g.get("obs", []) if isinstance(g, dict) else []
+    handle = 0
     for i, (a, b) in enumerate(zip(mr, gr)):
-        if a == b:
-            continue
         op = case["ops"][i]
         ob = obs[i] if i < len(obs) else {}
-        if b.get("changed"):
-            return (f"{op['op']} (operation {i}) changed the mechanism object(s) handed out by create operation(s) "
-                    f"{b['changed']}: a loaded mechanism was modified", True, i, {"obs": ob})
-        if b.get("ref") is False and a.get("ref") is True:
-            return (f"operation {i}: the object a rule gets for {json.dumps(op.get('config'))} is not the catalogue "
-                    "configuration overlaid with the rule's own settings (differs from the same configuration loaded "
-                    "on its own)", True, i, {"obs": ob})
-        if b.get("par_ok") is False:
-            return (f"operation {i}: concurrent executions answered differently from the same executions done alone",
-                    True, i, {"obs": ob})
-        return (f"operation {i} ({op['op']}): implementation {json.dumps(b, sort_keys=True)[:300]} ≠ model "
-                f"{json.dumps(a, sort_keys=True)[:300]}", False, i, {"obs": ob})
+        first = handle
+        handle += 1 if op["op"] == "create" else len(op.get("creates") or []) if op["op"] == "par" else 0
+        if a == b:
+            continue
+        label = f"{op['op']} (operation {i}" + (f", config {json.dumps(op.get('config'))}" if op["op"] == "create" else "") + ")"
+        if op["op"] == "par" and not b.get("changed") and b.get("par_ok") is not False:
+            # one of the objects created during the batch
+            for j, (ca, cb) in enumerate(zip(a.get("created") or [], b.get("created") or [])):
+                if ca != cb:
+                    cob = (ob.get("created") or [{}] * (j + 1))[j]
+                    txt, prop = explain(case, i, ca, cb, cob, gr, first + j,
+                                        f"variant {j} created during the concurrent batch (operation {i}, config "
+                                        f"{json.dumps(op['creates'][j].get('config'))})")
+                    return (txt, prop, i, {"obs": cob})
+        txt, prop = explain(case, i, a, b, ob, gr, first if op["op"] == "create" else None, label)
+        return (txt, prop, i, {"obs": ob})
     return None
+
+
+def spec_verdicts(case, m, g):
+    """impl vs SPEC ("the rule's own setting always wins") for every object handed out whose specified effective
+    configuration differs from the model's: [(known finding id or None, text, details)]"""
+    res = []
+    if not isinstance(m, dict) or not isinstance(g, dict):
+        return res
+    gr, obs = vlib.res_of(g), g.get("obs") or []
+    zeros = m.get("zero_ignored") or []
+    if not isinstance(gr, list):
+        return res
+    for k, (i, j, spec) in enumerate(objects(case)):
+        ob = obs[i] if i < len(obs) else {}
+        if j is not None:
+            ob = (ob.get("created") or [{}] * (j + 1))[j]
+        verdict = ob.get("spec")
+        if verdict in ("differs", "unloadable"):
+            zi = zeros[k] if k < len(zeros) else []
+            text = (f"rule config {json.dumps(spec.get('config'))}: the object handed out is not the catalogue entry "
+                    f"overlaid with the rule's own settings ({verdict}" + (f"; zero-valued setting(s) {zi} taken for "
+                    "'not set'" if zi else "") + ")")
+            res.append(("C17-zero-override" if zi else None, text, {"operation": i, "created": j, "obs": ob}))
+    return res
 
 
 def project(case, keep):
     """the case restricted to the operations `keep` (indices), handles renumbered; operations that refer to a
     dropped create are dropped as well"""
-    hmap, ops, nh = {}, [], 0
-    old_h = 0
+    hmap, ops, nh, old_h = {}, [], 0, 0
     for i, op in enumerate(case["ops"]):
-        if op["op"] == "create":
-            if i in keep:
-                hmap[old_h] = nh
-                nh += 1
-                ops.append(copy.deepcopy(op))
-            old_h += 1
-        elif i in keep:
-            o = copy.deepcopy(op)
-            if o["op"] == "exec":
-                if o["h"] not in hmap:
-                    continue
-                o["h"] = hmap[o["h"]]
-            else:
-                pairs = [(hmap[h], r) for h, r in zip(o["hs"], o.get("reqs") or [{}] * len(o["hs"])) if h in hmap]
-                if not pairs:
-                    continue
-                o["hs"] = [p[0] for p in pairs]
-                o["reqs"] = [p[1] for p in pairs]
-            ops.append(o)
+        made = 1 if op["op"] == "create" else len(op.get("creates") or []) if op["op"] == "par" else 0
+        if i not in keep:
+            old_h += made
+            continue
+        o = copy.deepcopy(op)
+        if o["op"] == "exec":
+            if o["h"] not in hmap:
+                continue
+            o["h"] = hmap[o["h"]]
+        elif o["op"] == "par":
+            pairs = [(hmap[h], r) for h, r in zip(o["hs"], o.get("reqs") or [{}] * len(o["hs"])) if h in hmap]
+            if not pairs:
+                old_h += made
+                continue
+            o["hs"] = [p[0] for p in pairs]
+            o["reqs"] = [p[1] for p in pairs]
+        for k in range(made):
+            hmap[old_h + k] = nh + k
+        old_h += made
+        nh += made
+        ops.append(o)
     used = {(o["kind"], o["id"]) for o in ops if o["op"] == "create"}
+    used |= {(cr["kind"], cr["id"]) for o in ops if o["op"] == "par" for cr in o.get("creates") or []}
     cat = [e for e in case["catalogue"] if (e["kind"], e["id"]) in used] or case["catalogue"][:1]
     return {"fam": "mech", "catalogue": cat, "ops": ops}
 
@@ -176,7 +251,9 @@ def shrink(exe, case, what_class, env=None):
 def run(R):
     err, info = regenerate(R)
     lean_ok = vlib.step_lean(R, PID)
-    race = R.tier == "thorough"
+    # both tiers run the implementation under the race detector: the interleaving of WithConfig with Execute and
+    # first uses at the same time are part of every batch
+    race = True
     os.environ.setdefault("VERIF_MECH_TMP", R.tmp)
     env = dict(os.environ, GORACE="halt_on_error=1 exitcode=66", VERIF_MECH_TMP=R.tmp)
     exe, log = vlib.build_harness(R.tmp, race=race)
@@ -205,23 +282,41 @@ def run(R):
         types = {(e["kind"], e["id"]): e for e in c["catalogue"]}
         obs = g.get("obs", []) if isinstance(g, dict) else []
         effs = m.get("eff", []) if isinstance(m, dict) else []
-        hinfo, k = [], 0
+        hinfo = []
+        for k, (i, j, spec) in enumerate(objects(c)):
+            r = gr[i] if i < len(gr) else {}
+            if j is not None:
+                r = (r.get("created") or [{}] * (j + 1))[j] if r.get("ran") else {}
+            e = types.get((spec["kind"], spec["id"]))
+            t = (spec["kind"] + "/" + e["type"]) if e else "missing"
+            by_type[t] += 1
+            st = r.get("st", "?")
+            by_status[("during batch: " if j is not None else "") +
+                      (st if st != "ok" else ("prototype" if r.get("alias") else "variant"))] += 1
+            conf = spec.get("config") or {}
+            if spec.get("invalid"):
+                stats["creates_with_rejected_value"] += 1
+            if e and any(conf == z for z in gen_mech.ZERO.get((e["kind"], e["type"]), [])):
+                stats["creates_with_zero_valued_setting"] += 1
+            if st == "ok" and not r.get("alias"):
+                nontrivial.add((t, tuple(sorted(conf.keys())), j is not None,
+                                tuple(sorted(x for x, v in (r.get("shared") or {}).items() if v == "fresh"))))
+            hinfo.append((t + "#" + spec["id"], effs[k] if k < len(effs) else None) if st == "ok" else None)
+        for known, text, det in spec_verdicts(c, m, g):
+            if known:
+                R.known_hits[known] = R.known_hits.get(known, 0) + 1
+                stats["spec_deviation_known_zero_override"] += 1
+            else:
+                R.violation("implementation ≠ specification: " + text, {"case": c, "details": det, "kind": "spec"},
+                            no_input=False)
         for i, op in enumerate(c["ops"]):
             r = gr[i] if i < len(gr) else {}
-            if op["op"] == "create":
-                e = types.get((op["kind"], op["id"]))
-                t = (op["kind"] + "/" + e["type"]) if e else "missing"
-                by_type[t] += 1
-                st = r.get("st", "?")
-                by_status[st if st != "ok" else ("prototype" if r.get("alias") else "variant")] += 1
-                if st == "ok" and not r.get("alias"):
-                    nontrivial.add((t, tuple(sorted((op.get("config") or {}).keys())),
-                                    tuple(sorted(x for x, v in (r.get("shared") or {}).items() if v == "fresh"))))
-                hinfo.append((t + "#" + op["id"], effs[k] if k < len(effs) else None) if st == "ok" else None)
-                k += 1
-            elif op["op"] == "exec" and r.get("ran"):
-                out = (obs[i] if i < len(obs) else {}).get("out")
-                if out is not None:
+            ob = obs[i] if i < len(obs) else {}
+            if op["op"] == "exec" and r.get("ran"):
+                out = ob.get("out")
+                if ob.get("inconclusive") or (out or {}).get("inconclusive"):
+                    stats["inconclusive_executions"] += 1
+                elif out is not None:
                     exec_err[out.get("err", "?")] += 1
                     hi = hinfo[op["h"]] if op["h"] < len(hinfo) else None
                     if hi is not None:
@@ -229,8 +324,9 @@ def run(R):
                         behaviour.setdefault(key, {}).setdefault(vlib.canon(out), (c, i))
             elif op["op"] == "par" and r.get("ran"):
                 stats["concurrent_batches"] += 1
-                stats["concurrent_executions"] += (obs[i] if i < len(obs) else {}).get("executions", 0)
-                stats["variants_created_during_execution"] += (obs[i] if i < len(obs) else {}).get("created_concurrently", 0)
+                stats["concurrent_executions"] += ob.get("executions", 0)
+                stats["inconclusive_executions"] += ob.get("inconclusive", 0)
+                stats["variants_created_during_execution"] += ob.get("created_concurrently", 0)
 
     # the behaviour of a mechanism object is a function of (type, id, effective configuration, request): whatever else
     # was created or executed before, in the same or in any other case, must not matter
@@ -244,21 +340,6 @@ def run(R):
                                      "kind": "history"}, no_input=False)
 
     dirty = dirty_rows(info)
-    if dirty and not concrete and not race:
-        # the footprints show a write to shared memory but no operation of the run above exhibited a change: look
-        # for the data race itself - the mechanism types concerned, first uses at the same time, race detector
-        types = sorted({gen_mech.GO_TYPES[d["type"]] for d in dirty if d["type"] in gen_mech.GO_TYPES}) or None
-        rdir = os.path.join(R.tmp, "race")
-        os.makedirs(rdir, exist_ok=True)
-        rexe, _ = vlib.build_harness(rdir, race=True)
-        if rexe is not None:
-            tcases = [gen_mech.gen_cold_case(R.rng, types) for _ in range(60)]
-            tm, tg = run_both(rexe, tcases, env=env)
-            for c, m, g in zip(tcases, tm, tg):
-                j = judge(c, m, g)
-                if j is not None and j[1]:
-                    concrete.append((c, m, g, j))
-            stats["targeted_race_cases"] = len(tcases)
     for c, m, g, j in concrete[:3]:
         what, _, i, details = j
         small = shrink(exe, c, True, env=env) if i is not None else c
@@ -301,9 +382,11 @@ def run(R):
     nops = sum(len(c["ops"]) for c in cases)
     R.coverage.update({
         "evaluations": nops, "distinct_nontrivial": len(nontrivial),
-        "rule": "operations (create / execute / concurrent batch) on the real mechanism factory, every object handed "
-                "out so far deep-dumped after each operation; non-trivial = a create that produced a variant; "
-                "distinct by (mechanism type, keys of the override, reference fields replaced)",
+        "rule": "operations (create / execute / concurrent batch with executions and creations at the same time) on the "
+                "real mechanism factory, every object handed out so far deep-dumped after each operation; non-trivial = "
+                "a creation that produced a variant; distinct by (mechanism type, keys of the override, created during a "
+                "batch or not, reference fields replaced)",
+        "known_finding_hits": dict(R.known_hits),
         "cases": len(cases), "corpus_cases": len(corpus), "creates_by_type": dict(by_type),
         "creates_by_outcome": dict(by_status), "executions_by_outcome": dict(exec_err),
         "behaviour_keys": len(behaviour), "model_stats": dict(stats), "race_detector": race,
@@ -312,16 +395,23 @@ def run(R):
         "samples": [cases[len(corpus)]] if len(cases) > len(corpus) else cases[:1],
     })
     R.assumptions += [
-        "the write footprints are an over-approximating static analysis (go/ssa, flow- and field-insensitive taint of "
-        "receiver / package-variable derived references, interface calls resolved over all module types, function "
-        "values over all address-taken module functions with identical signature); reflection, unsafe, cgo and "
-        "writes inside third-party libraries are outside of it: library calls on shared memory are compared with "
-        "the list Footprint.trustedExt of calls documented to be safe for concurrent use",
-        "trusted library calls on shared memory (Footprint.trustedExt): text/template Execute, cel-go Program.Eval / "
-        "Env.Compile / Check / Program, validator Struct, http.Client.Do, response bodies / headers, gjson results, "
-        "base64, jose Builder, httpsig Signer.Sign, and go-jose (*JSONWebKey).Thumbprint (called by jwtSigner.Hash on a "
-        "copy of the signer's JWK; v4.0.4 jwk.go:388 reviewed: it only reads the key's public parameters into newly "
-        "allocated buffers and hashes them)",
+        "the write footprints come from a static analysis (go/ssa, flow-insensitive, field-insensitive below the "
+        "receiver's own fields, taint of receiver / package-variable derived references, interface calls resolved over "
+        "all module types, function values over all address-taken module functions with identical signature) that "
+        "over-approximates writes made by module code and reports EVERY call of a function outside the module that is "
+        "handed shared memory (receiver or argument, directly or inside a local object); what such a function does is "
+        "not analysed: the calls must be on Footprint.trustedExt (44 reviewed entries: pure readers of their arguments, "
+        "APIs documented as safe for concurrent use, key-material readers incl. go-jose (*JSONWebKey).Thumbprint, v4.0.4 "
+        "jwk.go:388 reviewed). Not covered: reflection, unsafe, cgo, goroutines started by libraries, values that escape "
+        "into per-request state",
+        "reload callbacks (jwtSigner.OnChanged, HTTPMessageSignatures.OnChanged) replace key material of objects "
+        "mechanisms share: excluded from 'never changes' (C16 owns what a reload does), covered only by the obligation "
+        "that they write under the write lock and the jwt finalizer reads under the read lock; a reload is not exercised",
+        "value-level validation of a rule's config is not modelled: operations marked `invalid` by the generator are "
+        "taken as rejected (Override.valuesOk = false) and the run checks the rejection and that nothing changed",
+        "runtime influence between variants through a shared cache (prototype and variants share the id, a prefix of "
+        "the cache keys) is excluded: sequential executions run without cache, every goroutine of a batch has a cache "
+        "of its own (C10 / C11 own caching)",
         "memory newly allocated by WithConfig is private to it until it returns (the machine allocates and "
         "initialises a cell in one step)",
         "data-race freedom is a runtime property: the model shows the absence of conflicting accesses w.r.t. the "
@@ -330,9 +420,9 @@ def run(R):
         "per-type overlay rules (which key replaces / merges into which field) are a hand-written table "
         "(Model/MechTypes.lean) validated by the correspondence run: sharing pattern per field, and deep equality + "
         "equal behaviour of every variant with the model's effective configuration loaded as a prototype of its own",
-        "where the code tells 'set' from 'not set' by the zero value (strings, lists: user_id, forward_headers, "
-        "issuers ...) an override with the zero value is not observed; the model follows the code and the generator "
-        "does not produce such overrides",
+        "known finding C17-zero-override: where the code tells 'set' from 'not set' by the zero value (strings, lists, "
+        "templates) a rule cannot set the zero value; the model follows the code, the specification (own setting always "
+        "wins) is evaluated next to it and the deviation is counted for exactly that input class",
     ]
 
 
@@ -352,7 +442,7 @@ def replay(R, path):
     with vlib.LeanLock():
         vlib.lake(["build", "driver"])
     env = dict(os.environ, GORACE="halt_on_error=1 exitcode=66", VERIF_MECH_TMP=R.tmp)
-    exe, log = vlib.build_harness(R.tmp, race=("stderr" in json.dumps(p.get("details", {}))))
+    exe, log = vlib.build_harness(R.tmp, race=True)
     if exe is None:
         R.violation("harness does not build", {"build_log": log[-3000:]}, no_input=True)
         return
